@@ -33,7 +33,10 @@ type c14url struct{ name, url string }
 
 var c14IdPURLs = []c14url{{"plain", "https://idp.example.test/sso"}, {"query", "https://idp.example.test/sso?tenant=abc&x=1"}, {"query-escaped", "https://idp.example.test/sso?next=%2Fa%3Fb%3Dc%26d&sp=a+b"},
 	{"trailing-q", "https://idp.example.test/sso?"}, {"fragment", "https://idp.example.test/sso#top"}, {"port-path", "https://idp.example.test:8443/a/b%20c/sso"}, {"query-empty-val", "https://idp.example.test/sso?flag&k="},
-	{"http", "http://idp.example.test/sso?z=last&a=first"}}
+	{"http", "http://idp.example.test/sso?z=last&a=first"},
+	// the IdP's own parameters have names that contain, end in or sort before the binding's parameter names
+	{"suffix-named", "https://idp.example.test/sso?DefaultRelayState=home&LastSAMLRequest=x&PreferredSigAlg=rsa"}, {"prefix-named", "https://idp.example.test/sso?SAMLRequestId=7&RelayStateful=1&SigAlgs=a,b&Signatures=none"},
+	{"value-named", "https://idp.example.test/sso?next=SAMLRequest%3Dx%26RelayState%3Dy%26SigAlg%3Dz&A=SAMLRequest="}, {"case-named", "https://idp.example.test/sso?samlrequest=lower&relaystate=lower&sigalg=lower&signature=lower"}}
 
 // rawParams splits a raw query without decoding.
 func rawParams(raw string) [][2]string {
